@@ -281,11 +281,14 @@ func cmdCheck(args []string) {
 				hasCex = true // a counterexample settles the verdict: no point in waiting for the undecided ones
 			}
 		}
-		if len(again) > 0 && len(again) <= 8 && !hasCex {
+		// up to 40 undecided obligations are retried (a loaded or slower machine lets many proofs of the large Parse
+		// functions run into the first timeout at once, and FailFast then cuts the rest short); fewer workers, so
+		// that the retried queries do not slow each other down again
+		if len(again) > 0 && len(again) <= 40 && !hasCex {
 			for _, o := range again {
 				o.Retried = true
 			}
-			vc.Discharge(again, vc.SolveOpts{Timeout: 3 * timeout, Workers: 8, TmpDir: work})
+			vc.Discharge(again, vc.SolveOpts{Timeout: 3 * timeout, Workers: 6, TmpDir: work})
 		}
 	}
 	// expected obligations
